@@ -295,8 +295,73 @@ def early_exits(repo, col, prop):
     col.info["loops_examined"] = n
 
 
+def must_calls(repo, col, prop):
+    """Calls that re-establish an invariant must happen on every normal path (table in rules/mustcall_table.py)."""
+    from sa.mustcall import must_call, first_gap
+    from sa.core import FuncInfo, unparse
+    from .mustcall_table import TABLE
+    R = f"R-{prop}-mustcall"
+    rows = [r for r in TABLE if prop in r[0]]
+    if not rows:
+        return
+    byqual = {}
+    for fi in repo.all_functions():
+        byqual.setdefault(fi.qual, []).append(fi)
+    memo = {}
+
+    def holds(fi, recv, name, depth=0):
+        k = (fi.file, fi.qual, recv, name)
+        if k in memo:
+            return memo[k]
+        memo[k] = False  # recursion guard
+
+        def pred(c):
+            f = c.func
+            if isinstance(f, ast.Attribute) and f.attr == name and (recv is None or unparse(f.value) == recv):
+                return True
+            if isinstance(f, ast.Name) and f.id == name and recv is None:
+                return True
+            if depth >= 3:
+                return False
+            # a helper that itself always makes the call
+            g = None
+            if isinstance(f, ast.Name):
+                r = repo.resolve_name(repo.mods[fi.file], f.id)
+                g = r if isinstance(r, FuncInfo) else None
+                if g is None:
+                    for n in ast.walk(fi.node):
+                        if isinstance(n, ast.FunctionDef) and n.name == f.id and n is not fi.node:
+                            g = FuncInfo(n.name, fi.qual + ".<locals>." + n.name, fi.file, n, cls=fi.cls, parent=fi)
+            elif isinstance(f, ast.Attribute) and unparse(f.value) in ("self", "super()") and fi.cls:
+                for c_ in repo.mro(fi.cls):
+                    if f.attr in c_.methods:
+                        g = c_.methods[f.attr]
+                        break
+            if g is None or g.node is fi.node:
+                return False
+            r2 = recv
+            return holds(g, r2, name, depth + 1)
+
+        memo[k] = must_call(fi.node, pred)
+        return memo[k]
+
+    for _props, qual, (recv, name), why in rows:
+        fis = byqual.get(qual)
+        if not fis:
+            raise AnalysisError(f"must-call table: function {qual} not found")
+        fi = fis[0]
+        ok = holds(fi, recv, name)
+        gap = None if ok else first_gap(fi.node, lambda c: isinstance(c.func, (ast.Attribute, ast.Name)) and
+                                        (c.func.attr if isinstance(c.func, ast.Attribute) else c.func.id) == name)
+        col.check(ok, R, fi, f"{qual} calls {(recv + '.') if recv else ''}{name} on every normal path", why,
+                  f"{qual} can return without calling {(recv + '.') if recv else ''}{name} ({why}): the call is missing, conditional, "
+                  f"inside a loop that may not run, or behind an early return", node=gap or fi.node)
+    col.rule(R, "invariant-restoring calls happen on every normal path (must-pass-through)", len(rows))
+
+
 def run_all(prop, repo, col, tier):
     mod = importlib.import_module(f"rules.{prop.lower()}")
     mod.check(repo, col, tier)
     dead_parameters(repo, col, prop)
     early_exits(repo, col, prop)
+    must_calls(repo, col, prop)
